@@ -40,6 +40,8 @@ def run(ctx):
     ctx.rule(seed)
     ctx.rule(torch_twins)
     ctx.rule(torch_port_geometry)
+    ctx.rule(torch_port_spectrum)
+    ctx.rule(torch_port_reductions)
 
 
 # ----------------------------------------------------------------- helpers
@@ -618,6 +620,7 @@ def seed(ctx):
                   "the per-item seed includes the base seed", "the per-item seed ignores self.seed")
     tool = prog.func("command_line.signals_to_torch_feat_dir")
     cc.base_seed(ctx, R, tool, ds)
+    cc.seed_inputs_deterministic(ctx, R, tool, ds)
 
 
 def _in(body, node):
@@ -704,3 +707,17 @@ def torch_port_geometry(ctx):
     from . import c14
 
     c14.geom_twin(ctx, R="R-C09-torch-port-geometry")
+
+
+def torch_port_spectrum(ctx):
+    """... and only if the port weights the spectrum the way the NumPy computer does: mirrored bins, the walk over
+    the truncated response, modulus / power of the complex product, doubling for real banks (rules shared with C14)."""
+    from . import c14
+
+    c14.mirror_twin(ctx, R="R-C09-torch-port-spectrum")
+
+
+def torch_port_reductions(ctx):
+    from . import c14
+
+    c14.reductions(ctx, R="R-C09-torch-port-spectrum")
